@@ -69,6 +69,15 @@ fn add<const N: usize>(a: &[&str]) -> Option<String> {
     let none = Checked(CtOption::new(x, 0.into()));
     f.same("Checked(none)+", ck(none + cy), &None);
     f.same("Checked+(none)", ck(cy + none), &None);
+    // … in EVERY operator form and on either side (sticky none: seeds C04-m6 / C13-m7 lost it in one by-reference form)
+    f.same("Checked+&(none)", ck(cy + &none), &None);
+    f.same("&Checked+(none)", ck(&cy + none), &None);
+    f.same("&Checked+&(none)", ck(&cy + &none), &None);
+    f.same("&(none)+&Checked", ck(&none + &cy), &None);
+    f.same("(none)+&Checked", ck(none + &cy), &None);
+    f.same("Checked+=(none)", ck({ let mut t = cy; t += none; t }), &None);
+    f.same("Checked+=&(none)", ck({ let mut t = cy; t += &none; t }), &None);
+    f.same("(none)+=&Checked", ck({ let mut t = none; t += &cy; t }), &None);
     let (wx, wy) = (Wrapping(x), Wrapping(y));
     f.same("Wrapping+", (wx + wy).0, &w);
     f.same("Wrapping+&", (wx + &wy).0, &w);
@@ -96,6 +105,15 @@ fn sub<const N: usize>(a: &[&str]) -> Option<String> {
     let none = Checked(CtOption::new(x, 0.into()));
     f.same("Checked(none)-", ck(none - cy), &None);
     f.same("Checked-(none)", ck(cy - none), &None);
+    // … in EVERY operator form and on either side (sticky none: seeds C04-m6 / C13-m7 lost it in one by-reference form)
+    f.same("Checked-&(none)", ck(cy - &none), &None);
+    f.same("&Checked-(none)", ck(&cy - none), &None);
+    f.same("&Checked-&(none)", ck(&cy - &none), &None);
+    f.same("&(none)-&Checked", ck(&none - &cy), &None);
+    f.same("(none)-&Checked", ck(none - &cy), &None);
+    f.same("Checked-=(none)", ck({ let mut t = cy; t -= none; t }), &None);
+    f.same("Checked-=&(none)", ck({ let mut t = cy; t -= &none; t }), &None);
+    f.same("(none)-=&Checked", ck({ let mut t = none; t -= &cy; t }), &None);
     let (wx, wy) = (Wrapping(x), Wrapping(y));
     f.same("Wrapping-", (wx - wy).0, &w);
     f.same("Wrapping-&", (wx - &wy).0, &w);
@@ -158,6 +176,15 @@ fn ck_mul<const N: usize>(a: &[&str]) -> Option<String> {
     let none = Checked(CtOption::new(x, 0.into()));
     f.same("Checked(none)*", ck(none * cy), &None);
     f.same("Checked*(none)", ck(cy * none), &None);
+    // … in EVERY operator form and on either side (sticky none: seeds C04-m6 / C13-m7 lost it in one by-reference form)
+    f.same("Checked*&(none)", ck(cy * &none), &None);
+    f.same("&Checked*(none)", ck(&cy * none), &None);
+    f.same("&Checked*&(none)", ck(&cy * &none), &None);
+    f.same("&(none)*&Checked", ck(&none * &cy), &None);
+    f.same("(none)*&Checked", ck(none * &cy), &None);
+    f.same("Checked*=(none)", ck({ let mut t = cy; t *= none; t }), &None);
+    f.same("Checked*=&(none)", ck({ let mut t = cy; t *= &none; t }), &None);
+    f.same("(none)*=&Checked", ck({ let mut t = none; t *= &cy; t }), &None);
     Some(f.done(oi(c)))
 }
 
